@@ -236,6 +236,30 @@ def coq_eval(name, vsrc, timeout=900):
     return rc, o + e
 
 
+def coq_judge_sharded(name, preamble, case_type, judge_fn, rows, shard=600, timeout=900, jobs=8):
+    """Evaluate `map judge_fn rows` inside Coq in shards of at most `shard` cases (a single huge
+    list literal overflows coqc's stack) and return the concatenated verdict list, or (None, msg)."""
+    from concurrent.futures import ThreadPoolExecutor
+    chunks = [rows[i:i + shard] for i in range(0, len(rows), shard)] or [[]]
+
+    def one(ic):
+        i, chunk = ic
+        src = ("%s\nDefinition cases : list (%s) :=\n %s.\n"
+               "Definition M := Eval vm_compute in map %s cases.\nPrint M.\n") % (preamble, case_type, glist(chunk), judge_fn)
+        rc, out = coq_eval("%s_%d_%d" % (name, os.getpid(), i), src, timeout=timeout)
+        vs = parse_verdicts(out)
+        if rc != 0 or vs is None or len(vs) != len(chunk):
+            return None, out[-1500:]
+        return vs, ""
+    res = []
+    with ThreadPoolExecutor(max_workers=jobs) as ex:
+        for vs, msg in ex.map(one, enumerate(chunks)):
+            if vs is None:
+                return None, msg
+            res += vs
+    return res, ""
+
+
 def parse_verdicts(txt):
     """the judge prints a list of (code, detail) pairs of N"""
     txt = txt.replace("\n", " ")
